@@ -64,9 +64,11 @@ func (s *scope) set(name string, v interface{}) {
 // Ref is the outcome the properties prescribe.
 type Ref struct {
 	Out    string
-	Fail   bool // the render must fail with empty output
-	Either bool // an unspecified corner was touched: an error, or exactly Out
-	Skip   bool // the output is not determined by the properties
+	Fail   bool  // the render must fail with empty output
+	Either bool  // an unspecified corner was touched: an error, or exactly Out
+	Skip   bool  // the output is not determined by the properties
+	Stale  bool  // a binding made in an earlier iteration of the running loop was read
+	Fresh  bool  // mode: every iteration starts with a fresh scope (otherwise one scope per loop run)
 	Hits   []int // the calls of hit(k), in order
 	d      Data
 	cur    *scope
@@ -89,9 +91,16 @@ const (
 	sigReturn
 )
 
-// Run interprets prog on d.
-func Run(prog []*Stmt, d Data) *Ref {
-	r := &Ref{d: d}
+// Run interprets prog on d: a let in a loop body lasts for the loop run.
+func Run(prog []*Stmt, d Data) *Ref { return run(prog, d, false) }
+
+// RunFresh: the same, but every iteration starts with a fresh scope. The
+// statements do not say which of the two a loop does; when the difference
+// matters (Ref.Stale) a harness accepts both.
+func RunFresh(prog []*Stmt, d Data) *Ref { return run(prog, d, true) }
+
+func run(prog []*Stmt, d Data, fresh bool) *Ref {
+	r := &Ref{d: d, Fresh: fresh}
 	r.root = &scope{}
 	r.cur = r.root
 	r.root.set("x", d.X)
@@ -128,7 +137,7 @@ func (r *Ref) lookup(name string) *binding {
 				r.Skip = true // assigned from inside a nested scope: write-through or shadow?
 			}
 			if s.loop && b.stamp != s.iter {
-				r.Skip = true // a let of an earlier iteration: fresh scope per iteration or per loop?
+				r.Stale = true // a let of an earlier iteration: fresh scope per iteration or per loop run? (both accepted)
 			}
 			if crossedFn && s != r.root {
 				r.Skip = true // a function body reading its caller's locals: lexical or dynamic?
@@ -572,6 +581,9 @@ func (r *Ref) forStmt(s *Stmt) (int, interface{}, int) {
 	r.cur = &scope{outer: saved, loop: true}
 	for i, el := range elems {
 		r.cur.iter = i + 1
+		if r.Fresh {
+			r.cur.vars = nil
+		}
 		if s.Key != "" {
 			r.cur.set(s.Key, i)
 		}
